@@ -1127,10 +1127,9 @@ class EditHistory(Oracle):
         for k, c in enumerate(cmds):
             if c.startswith("inv ") and r[k] != "ok":
                 prev = cmds[k - 1].replace("ifok ", "").split(" ")[0] if k else ""
-                tag = None
-                if "siblings not in schema order" in r[k] and prev in ("val", "implicit", "apply"):
-                    tag = "implicit-toplevel-order"
-                return (tag, "after '%s': %s" % (" ".join(cmds[k - 1].split(" ")[:3]), r[k]))
+                # (the former known finding implicit-toplevel-order, fixed by libyang 7ad8277, is a plain failure now;
+                # regression case: corpus/edit-history.txt)
+                return (None, "after '%s': %s" % (" ".join(cmds[k - 1].split(" ")[:3]), r[k]))
             if "!" in r[k] and not c.startswith("dump"):
                 return (None, "after '%s': %s" % (" ".join(c.split(" ")[:3]), r[k]))
         # print/parse fixpoint
